@@ -11,7 +11,7 @@ import ast
 from ..model import AnalysisError, unparse
 from ..report import RuleResult
 from ._c20_sem import (Flow, assume_truth, attr_stores, callee_names, const_seq, dict_keys, is_em_dataset, is_metadata_of, is_self,
-                       keys_read, reach_assuming, specialise, specialise_identity, view)
+                       keys_read, reach_assuming, specialise, specialise_consts, specialise_identity, view)
 
 
 def _global_resolver(p, mod):
@@ -33,6 +33,30 @@ def _type_map(ctx) -> dict:
     if c is not None:
         c["c20.type_map"] = tm
     return tm
+
+
+def _is_constant_name(attr: str) -> bool:
+    """Constant by convention: upper case once the leading underscores are dropped (`_COMPLEMENT`, `__TYPE`)."""
+    core = attr.lstrip("_")
+    return bool(core) and core.isupper()
+
+
+def _rebound_attrs(ctx) -> set:
+    """Attribute names that some code of the package assigns through an object (`x.A = ..`, `setattr(x, 'A', ..)`, del)."""
+    c = getattr(ctx, "cache", None)
+    if c is not None and "c20.rebound" in c:
+        return c["c20.rebound"]
+    out = set()
+    for m in ctx.p.modules.values():
+        for x in ast.walk(m.tree):
+            if isinstance(x, ast.Attribute) and isinstance(x.ctx, (ast.Store, ast.Del)):
+                out.add(x.attr)
+            elif isinstance(x, ast.Call) and isinstance(x.func, ast.Name) and x.func.id in ("setattr", "delattr") and len(x.args) >= 2 \
+                    and isinstance(x.args[1], ast.Constant) and isinstance(x.args[1].value, str):
+                out.add(x.args[1].value)
+    if c is not None:
+        c["c20.rebound"] = out
+    return out
 
 
 def _flow(ctx, fn, K=None) -> Flow:
@@ -78,6 +102,19 @@ def _flow(ctx, fn, K=None) -> Flow:
         return None if any(C in S.mro for S in p.subclasses(K)) else False
 
     node = specialise(fv.node, fn.self_name or "self", is_a)
+    if K is not None and any(isinstance(x, ast.Attribute) and isinstance(x.value, ast.Name) and x.value.id in ("self", "cls", fn.self_name or "self")
+                             and _is_constant_name(x.attr) for x in ast.walk(node)):
+        # tests on a per-class constant read through self (`if self._KIND is None:` in one generic accessor)
+        rebound = _rebound_attrs(ctx)
+
+        def class_const(attr):
+            if not _is_constant_name(attr) or attr in rebound:
+                return None
+            owner = fn.cls if attr.startswith("__") and not attr.endswith("__") else K
+            m = owner.lookup(attr) if owner is not None else None
+            return m[2] if m and m[1] == "assign" and isinstance(m[2], ast.Constant) else None
+
+        node = specialise_consts(node, fn.self_name or "self", class_const)
     fl = Flow(node, {"TYPE_MAP": _type_map(ctx)}, outer)
     if any(isinstance(x, ast.Compare) and isinstance(x.ops[0], (ast.Is, ast.IsNot)) and any(is_self(y, fn.self_name or "self") for y in [x.left] + x.comparators) for x in ast.walk(node)):
         # `... is self` tests decided by which locals stand for self (roles named first, a field chosen by identity afterwards)
@@ -162,6 +199,46 @@ def const_return(K, name, p=None):
     return (None, unparse(v))
 
 
+def complement_of(ctx, K):
+    """What `K.complement` answers for an instance of class K: ('self-attr', link) | ('none', None) | (None, text).
+    The getter reached through K's MRO is evaluated FOR K: per-class constants read through self are taken from K
+    (`getattr(self, self._COMPLEMENT)` in one generic accessor), settled branches are dropped, locals are followed."""
+    m = K.lookup("complement")
+    if not m or m[1] != "prop" or m[2].getter is None:
+        return (None, None)
+    g = m[2].getter
+    if not hasattr(ctx, "view"):
+        return const_return(K, "complement", ctx.p)
+    from ..cfg import CFG
+
+    fl = _flow(ctx, g, K)
+    sn = g.self_name or "self"
+    cfg = CFG(fl.node)
+    live = _reach_settled(cfg, [cfg.entry])
+    rets = [n for n in cfg.nodes if n.kind == "return" and n in live]
+    if cfg.exit in live and any(n.kind != "return" and any(s is cfg.exit for s, _ in n.succ) for n in live):
+        rets.append(None)  # falls off the end: returns None
+    out = set()
+    for r in rets:
+        v = r.ast if r is not None else None
+        if v is None:
+            out.add(("none", None))
+            continue
+        for o in fl.origins(v):
+            if isinstance(o, ast.Constant) and o.value is None:
+                out.add(("none", None))
+            elif isinstance(o, ast.Attribute) and is_self(o.value, sn):
+                out.add(("self-attr", o.attr))
+            elif isinstance(o, ast.Call) and isinstance(o.func, ast.Name) and o.func.id == "getattr" and len(o.args) >= 2 and any(is_self(x, sn) for x in fl.origins(o.args[0])) \
+                    and fl.consts(o.args[1]) and len(fl.consts(o.args[1])) == 1:
+                out.add(("self-attr", next(iter(fl.consts(o.args[1])))))
+            else:
+                out.add((None, unparse(o)))
+    if len(out) == 1:
+        return next(iter(out))
+    return (None, " | ".join(sorted(str(v) for _, v in out)))
+
+
 def em_classes(ctx):
     p = ctx.p
     base = p.cls("BaseEMSurvey")
@@ -227,7 +304,7 @@ def rule_keys(ctx) -> RuleResult:
         dkeys, dm_getter = _default_em_keys(ctx, K)
         partner_keys = (dkeys & set(type_map)) - {typ}
         # b. complement
-        kind, val = const_return(K, "complement", p)
+        kind, val = complement_of(ctx, K)
         if not partner_keys and kind == "none":
             res.inst(f"{K.name}: no partner kind in default_metadata, complement is None")
             okc = False
@@ -421,6 +498,18 @@ def _passes_on_every_path(fn_node, pred) -> bool:
     return g.exit not in reach(g, [g.entry], avoid=hit)
 
 
+def _self_links(fl, sn, e) -> set:
+    """Names L such that `e` may stand for the partner `getattr(self, L, ...)` / `self.L`."""
+    out = set()
+    for a in fl.origins(e):
+        if isinstance(a, ast.Call) and isinstance(a.func, ast.Name) and a.func.id == "getattr" and len(a.args) >= 2 \
+                and any(is_self(x, sn) for x in fl.origins(a.args[0])):
+            out |= {k for k in (fl.consts(a.args[1]) or ()) if isinstance(k, str)}
+        elif isinstance(a, ast.Attribute) and isinstance(a.ctx, ast.Load) and any(is_self(x, sn) for x in fl.origins(a.value)):
+            out.add(a.attr)
+    return out
+
+
 def rule_prop(ctx) -> RuleResult:
     res = RuleResult(
         "C20.PROP",
@@ -439,15 +528,7 @@ def rule_prop(ctx) -> RuleResult:
     fl = _flow(ctx, st)
 
     def links_of(e) -> set:
-        """Names L such that `e` may stand for the partner `getattr(self, L, ...)` / `self.L`."""
-        out = set()
-        for a in fl.origins(e):
-            if isinstance(a, ast.Call) and isinstance(a.func, ast.Name) and a.func.id == "getattr" and len(a.args) >= 2 \
-                    and any(is_self(x, sn) for x in fl.origins(a.args[0])):
-                out |= {k for k in (fl.consts(a.args[1]) or ()) if isinstance(k, str)}
-            elif isinstance(a, ast.Attribute) and isinstance(a.ctx, ast.Load) and any(is_self(x, sn) for x in fl.origins(a.value)):
-                out.add(a.attr)
-        return out
+        return _self_links(fl, sn, e)
 
     # partners enumerated: what the things that receive a `_metadata` / are handed to update_attribute(.., 'metadata') /
     # are looked up with getattr(self, <name>) may stand for
@@ -800,6 +881,10 @@ def rule_linkcache(ctx) -> RuleResult:
                     ordered = ordered or link in (mfl.consts(n.args[1]) or ())
                 elif isinstance(n, ast.Attribute) and isinstance(n.ctx, ast.Load) and n.attr == link and is_self(n.value, msn):
                     ordered = True
+            # ... or through a helper the view cannot expand (a generator of partners): what the entities that receive the
+            # shared dictionary may stand for
+            for r, _, _ in attr_stores(mfl.node, "_metadata", mfl):
+                ordered = ordered or link in _self_links(mfl, msn, r)
         # can the metadata setter itself refuse the dictionary (explicit raise in its normalised body)?
         validating = bool(ms and ms[1] == "prop" and ms[2].setter is not None and any(isinstance(x, ast.Raise) for x in ast.walk(mfl.node)))
         before = _reach_settled(cfg, [cfg.entry], avoid=lambda n: n in stores)
